@@ -139,9 +139,24 @@ def main(chk):
         opened = []
         closed = []
         names = ['a', 'b', 'sub/c', 'sub', 'other', '.', 'sub/deep', 'other/o']
+        # descriptors that were never returned by path_open can be closed too: the standard streams (their native numbers are then
+        # free for reuse by later opens, so a stale use would land in an unrelated file) and the additional pre-opens
+        victims = []
+        if r.random() < 0.6:
+            victims = r.sample([0, 1] + ([2] if r.random() < 0.2 else []) + list(range(first_fd + 1, first_fd + npre)), 1)
+            if r.random() < 0.3:
+                victims.append(r.choice([v for v in (0, 1) if v not in victims] or [0]))
+            victims = list(dict.fromkeys(victims))
+        special = []
         for step in range(r.randint(3, 14)):
             x = r.random()
-            if x < 0.65 or not opened:
+            if victims and x > 0.88:
+                fd = victims.pop()
+                idx = g.call('fd_close', [fd])
+                checks.append(('errno', idx, 0, 'fd_close(stdio)' if fd < 3 else 'fd_close(preopen)'))
+                live.discard(fd)
+                special.append((fd, 'closed-stdio' if fd < 3 else 'closed-preopen'))
+            elif x < 0.65 or not opened:
                 nm = r.choice(names)
                 isdir = os.path.isdir(os.path.join(T, nm))
                 g.poke(0x6000, nm.encode())
@@ -180,7 +195,7 @@ def main(chk):
         never = [nextfd, nextfd + 1, 1 << 31, 0xffffffff, r.randint(nextfd + 2, 1 << 30), 0x7fffffff]
         deads = [(fd, 'closed-dir' if isdir else 'closed-file') for fd, isdir in closed] + [(fd, 'never-issued') for fd in r.sample(never, 3)]
         r.shuffle(deads)
-        for fd, kind in deads[:6]:
+        for fd, kind in special + deads[:6 - len(special)]:
             for name in (ENTRY if r.random() < 0.5 else r.sample(ENTRY, 8)):
                 a = r.choice(['p1', 'un'])
                 g.abi = a
